@@ -171,6 +171,8 @@ structure AState where
   wallet : List Tx := []
   trace : List Effect := []
   signerSecret : Nat := 0  -- Signer.DeriveSharedKey(auctioneer key, trader key locator) of this account
+  subFail : Bool := false    -- environment fault: Auctioneer.StartAccountSubscription fails
+  walletFail : Bool := false -- environment fault: the wallet's ListTransactions fails
 deriving Repr
 
 def AState.init (key : Nat) : AState := { key := key }
@@ -295,13 +297,26 @@ def watchers (s : AState) (a : Acct) (acts : List String) : AState :=
   let s := if acts.contains "handleStateOpen" then handleStateOpen s a else s
   if acts.contains "WatchAccountSpend" then regSpend s a.outpoint (a.script s.key) else s
 
+/-- the auctioneer subscription is the *last* step of the clauses that have one (`handleStateOpen`, and the
+pending-batch clause): when it fails the watchers are armed already and only the result is an error -/
+def subscribeRes (s : AState) (a : Acct) (acts : List String) : Res :=
+  if s.subFail && (acts.contains "handleStateOpen" ||
+      (a.state = .pendingBatch && acts.contains "[account.State == StatePendingBatch]StartAccountSubscription"))
+  then .err else .ok
+
 /-- clauses of `resumeAccount` after `StateInitiated` (the `fallthrough` target and the other states). -/
 def resumeRest (s : AState) (a : Acct) (onRestart : Bool) : AState × Res :=
   match resumeActs a.state with
   | none => (s, .err)
   | some acts =>
     let r := rebroadcast s a onRestart acts
-    if r.2 = .ok then (watchers r.1 a acts, .ok) else r
+    if r.2 = .ok then (watchers r.1 a acts, subscribeRes s a acts) else r
+
+/-- does the stored / reported latest transaction itself carry the account output? -/
+def viaFull (key : Nat) (a : Acct) : Bool :=
+  match a.latestTx with
+  | some t => txHasOutput t (a.out key)
+  | none => false
 
 inductive FundRes where
   | fail (r : Res)
@@ -312,13 +327,15 @@ inductive FundRes where
 recovery), or create it with `SendOutputs`; on recovery an unknown funding transaction is never re-created. -/
 def fundOrLocate (s : AState) (a : Acct) (onRestart onRecovery feeOk : Bool) (fundTx : Option (Nat × Nat))
     (acts : List String) : FundRes :=
-  let located : Option Tx :=
-    if (onRestart || onRecovery) && acts.contains "[onRestart || onRecovery]locateTxByOutput"
-    then locateTxByOutput s.wallet (a.out s.key) a.latestTx else none
+  let look := (onRestart || onRecovery) && acts.contains "[onRestart || onRecovery]locateTxByOutput"
+  let located : Option Tx := if look then locateTxByOutput s.wallet (a.out s.key) a.latestTx else none
+  -- the stored / reported latest transaction is tried first; only then the wallet is asked, and any error
+  -- other than "not found" aborts (`default: return fmt.Errorf("unable to locate output …")`)
   match located with
-  | some t => .got s t
+  | some t => if look && s.walletFail && !viaFull s.key a then .fail .err else .got s t
   | none =>
-    if onRecovery then .cancel
+    if look && s.walletFail then .fail .err
+    else if onRecovery then .cancel
     else if !feeOk then .fail .err
     else if !acts.contains "[createTx]SendOutputs" then .fail .err
     else match fundTx with
